@@ -972,6 +972,37 @@ async fn check_order(
         if nulls_low.is_none() && ok_low != ok_high {
             *nulls_low = Some(ok_low);
         }
+        // an explicit NULLS FIRST / NULLS LAST is honoured (or refused), never silently ignored
+        if q.group_by.is_none() && keys.len() == 1 {
+            let ki = keys[0].0;
+            let n_null = orow.iter().filter(|r| r[ki].is_null()).count();
+            if n_null > 0 && n_null < orow.len() {
+                let first = at % 2 == 0;
+                let sql = format!("{} NULLS {}", ordered.sql(), if first { "FIRST" } else { "LAST" });
+                let o = db.exec(&sql).await;
+                cx.stats.evaluations += 1;
+                match o.rows() {
+                    Some(nrow) => {
+                        let placed = if first {
+                            nrow.iter().take(n_null).all(|r| r[ki].is_null())
+                        } else {
+                            nrow.iter().rev().take(n_null).all(|r| r[ki].is_null())
+                        };
+                        if !placed || multiset_diff(nrow, &brow).is_some() {
+                            cx.violate(Violation::new(
+                                "C12",
+                                "nulls-placement-ignored",
+                                Some(at),
+                                format!("{sql}: keys come back as [{}]", rows_brief(&key_proj(nrow, &keys), 24)),
+                            ));
+                            return;
+                        }
+                        cx.probe("nulls-placement-checked");
+                    }
+                    None => cx.probe("nulls-placement-refused"),
+                }
+            }
+        }
         // the sort key need not be in the select list: with distinct, non-NULL keys the sequence
         // of any other column is determined by the ordered result above
         if q.group_by.is_none() && keys.len() == 1 && def.cols.len() > 1 {
